@@ -253,15 +253,27 @@ class Engine:
                 else:
                     items.append((k, v))
         add_items(node)
+        big = len(items) > 24
+        if big:
+            # a large table (the builtin table): its content is a named constant with one pointwise fact per entry.
+            # A 100-fold store chain under an array equality costs z3 a second per query; nothing needs the closed world.
+            has = z3.Const('TABLE_%s_%s_has' % (module, name), z3.ArraySort(Val, B))
+            val = z3.Const('TABLE_%s_%s_val' % (module, name), z3.ArraySort(Val, Val))
+            keys = z3.Const('TABLE_%s_%s_keys' % (module, name), z3.ArraySort(I, Val))
         for k, v in items:
             kv = ex.eval(k, Env())
             if module == 'functions' and name == 'FUNCTIONS' and isinstance(k, ast.Constant):
                 vv = L.FunV(self.static_id(self.functions_entry_static(k.value)))
             else:
                 vv = ex.to_val(ex.eval(v, Env()))
-            has = z3.Store(has, kv, z3.BoolVal(True))
-            val = z3.Store(val, kv, vv)
-            keys = z3.Store(keys, n, kv)
+            if big:
+                ex.assume(z3.Select(has, kv))
+                ex.assume(z3.Select(val, kv) == vv)
+                ex.assume(z3.Select(keys, n) == kv)
+            else:
+                has = z3.Store(has, kv, z3.BoolVal(True))
+                val = z3.Store(val, kv, vv)
+                keys = z3.Store(keys, n, kv)
             n += 1
         ex.cur_module = saved
         # the global object is pristine in the pre-state (TSI-4 keeps it so)
@@ -277,7 +289,7 @@ class Engine:
             for arr, v in (('DHAS', has), ('DVAL', val), ('DKEY', keys), ('DLEN', z3.IntVal(n))):
                 ex.assume(z3.Select(ex.heap.arr(arr), ref) == v)
         ex.global_tables = getattr(ex, 'global_tables', {})
-        ex.global_tables[ref.get_id()] = (has, val, [(L.simp(z3.Select(keys, k)), L.simp(z3.Select(val, z3.Select(keys, k)))) for k in range(n)])
+        ex.global_tables[ref.get_id()] = (has, val, [(L.simp(z3.Select(keys, k)), L.simp(z3.Select(val, z3.Select(keys, k)))) for k in range(n)] if not big else [])
         return L.DictV(ref)
 
     def index_lambda(self, ex, node):
